@@ -72,7 +72,7 @@ Fixpoint dset (k v : val) (kvs : list (val * val)) : list (val * val) :=
 Fixpoint ddel (k : val) (kvs : list (val * val)) : list (val * val) :=
   match kvs with
   | [] => []
-  | (k', v') :: r => if val_eqb k k' then r else (k', v') :: ddel k r
+  | (k', v') :: r => if val_eqb k k' then ddel k r else (k', v') :: ddel k r
   end.
 
 Fixpoint aget {A} (x : string) (l : list (string * A)) : option A :=
@@ -117,6 +117,7 @@ Definition env := list (string * val).
 
 Inductive eres := EOk (v : val) (s : st) | EExc (e : val) (s : st) | ETimeout | EStuck (m : string).
 Inductive elres := LOk (vs : list val) (s : st) | LExc (e : val) (s : st) | LTimeout | LStuck (m : string).
+Inductive kres := KOk (kw : list (string * val)) (s : st) | KExc (e : val) (s : st) | KTimeout | KStuck (m : string).
 Inductive ctl := CNorm | CRet (v : val) | CExc (e : val).
 Inductive sres := SR (c : ctl) (en : env) (s : st) | STimeout | SStuck (m : string).
 
@@ -224,7 +225,7 @@ Fixpoint bind_params (ps : list (string * option const)) (args : list val) (kw :
 Record recs := {
   r_eval : env -> expr -> st -> eres;
   r_evals : env -> list expr -> st -> elres;
-  r_evalkw : env -> (list (string * expr)) -> st -> ((list (string * val) + eres) * st);
+  r_evalkw : env -> (list (string * expr)) -> st -> kres;
   r_ocall : string -> list val -> (list (string * val)) -> st -> eres;
   r_run_beh : beh -> list event -> eres;
   r_call_value : val -> list val -> (list (string * val)) -> st -> eres;
@@ -454,8 +455,10 @@ Definition eval_step (R : recs) (en : env) (e : expr) (s : st) : eres :=
                 match r_evals R en args s1 with
                 | LOk vargs s2 =>
                     match r_evalkw R en kw s2 with
-                    | (inl vkw, s3) => r_call_method R vr m vargs vkw s3
-                    | (inr r, _) => r
+                    | KOk vkw s3 => r_call_method R vr m vargs vkw s3
+                    | KExc x s3 => EExc x s3
+                    | KTimeout => ETimeout
+                    | KStuck m' => EStuck m'
                     end
                 | LExc x s2 => EExc x s2 | LTimeout => ETimeout | LStuck m' => EStuck m'
                 end
@@ -467,8 +470,10 @@ Definition eval_step (R : recs) (en : env) (e : expr) (s : st) : eres :=
                 match r_evals R en args s1 with
                 | LOk vargs s2 =>
                     match r_evalkw R en kw s2 with
-                    | (inl vkw, s3) => r_call_value R vf vargs vkw s3
-                    | (inr r, _) => r
+                    | KOk vkw s3 => r_call_value R vf vargs vkw s3
+                    | KExc x s3 => EExc x s3
+                    | KTimeout => ETimeout
+                    | KStuck m' => EStuck m'
                     end
                 | LExc x s2 => EExc x s2 | LTimeout => ETimeout | LStuck m' => EStuck m'
                 end
@@ -497,17 +502,21 @@ Definition evals_step (R : recs) (en : env) (es : list expr) (s : st) : elres :=
         end
     end.
 
-Definition evalkw_step (R : recs) (en : env) (kw : list (string * expr)) (s : st) : (list (string * val) + eres) * st :=
+Definition evalkw_step (R : recs) (en : env) (kw : list (string * expr)) (s : st) : kres :=
     match kw with
-    | [] => (inl [], s)
+    | [] => KOk [] s
     | (k, e) :: r =>
         match r_eval R en e s with
         | EOk v s1 =>
             match r_evalkw R en r s1 with
-            | (inl vs, s2) => (inl ((k, v) :: vs), s2)
-            | x => x
+            | KOk vs s2 => KOk ((k, v) :: vs) s2
+            | KExc x s2 => KExc x s2
+            | KTimeout => KTimeout
+            | KStuck m => KStuck m
             end
-        | x => (inr x, s)
+        | EExc x s1 => KExc x s1
+        | ETimeout => KTimeout
+        | EStuck m => KStuck m
         end
     end.
 
@@ -693,22 +702,28 @@ Definition exec_step (R : recs) (en : env) (c : stmt) (s : st) : sres :=
         | EExc x s1 => SR (CExc x) en s1 | ETimeout => STimeout | EStuck m => SStuck m
         end
     | STry body handlers fin =>
-        let r1 := r_exec_block R en body s in
-        let r2 := match r1 with
-                  | SR (CExc x) en1 s1 => r_handle R en1 x handlers s1
-                  | r => r
-                  end in
-        match fin with
-        | [] => r2
-        | _ =>
-            match r2 with
+        match r_exec_block R en body s with
+        | SR c1 en1 s1 =>
+            match (match c1 with
+                   | CExc x => r_handle R en1 x handlers s1
+                   | _ => SR c1 en1 s1
+                   end) with
             | SR c2 en2 s2 =>
-                match r_exec_block R en2 fin s2 with
-                | SR CNorm en3 s3 => SR c2 en3 s3
-                | r => r
+                match fin with
+                | [] => SR c2 en2 s2
+                | _ =>
+                    match r_exec_block R en2 fin s2 with
+                    | SR CNorm en3 s3 => SR c2 en3 s3
+                    | SR c3 en3 s3 => SR c3 en3 s3
+                    | STimeout => STimeout
+                    | SStuck m => SStuck m
+                    end
                 end
-            | r => r
+            | STimeout => STimeout
+            | SStuck m => SStuck m
             end
+        | STimeout => STimeout
+        | SStuck m => SStuck m
         end
     | SFor t e body =>
         match r_eval R en e s with
@@ -779,7 +794,7 @@ Definition exec_block_step (R : recs) (en : env) (cs : list stmt) (s : st) : sre
 Definition bottom : recs := {|
   r_eval := fun en e s => ETimeout;
   r_evals := fun en es s => LTimeout;
-  r_evalkw := fun en kw s => (inr ETimeout, s);
+  r_evalkw := fun en kw s => KTimeout;
   r_ocall := fun g args kw s => ETimeout;
   r_run_beh := fun b n => ETimeout;
   r_call_value := fun vf args kw s => ETimeout;
